@@ -468,10 +468,11 @@ def fragmentsOnComposite (S : Schema) (D : Document) : Bool :=
   (fragDefs D).all (fun f => (S.find f.2.1).isNone || isComposite S f.2.1) &&
   (selOccs S D).all (condCompositeAt S)
 
-def spreadNames (S : Schema) (D : Document) : List String :=
-  (selOccs S D).filterMap fun
-    | .spread _ n _ _ _ => some n
-    | _ => none
+def spreadNameOf : Occ → Option String
+  | .spread _ n _ _ _ => some n
+  | _ => none
+
+def spreadNames (S : Schema) (D : Document) : List String := (selOccs S D).filterMap spreadNameOf
 
 /-- §5.5.1.4 Fragments Must Be Used: "fragment must be the target of at least one spread in the document". -/
 def fragmentsUsed (S : Schema) (D : Document) : Bool :=
